@@ -901,8 +901,9 @@ func runFiles(c *core.Ctx) {
 		}
 		reader := func(name string, _ ...obiformats.WithOption) (obiiter.IBioSequence, error) {
 			p := byName[name]
-			// a file reader delivers its batches in order
-			return itx.Feed(p.parts, numbers(len(p.parts))), nil
+			// a real file reader numbers its batches 0..m-1 but, because of its parallel
+			// header-parsing stage, delivers them in any order
+			return itx.Feed(p.parts, p.perm), nil
 		}
 		var obs []itx.Obs
 		label := fmt.Sprintf("readfiles:%s", m.class())
@@ -1009,6 +1010,7 @@ func init() {
 			{Name: "readfiles", N: n(32, 128), Run: runFiles},
 			{Name: "compose", N: n(96, 480), Run: runCompose, Race: true, NRace: n(24, 96)},
 			{Name: "e2e", N: n(24, 120), Run: runE2E},
+			{Name: "e2e-files", N: n(16, 80), Run: runE2EFiles},
 		},
 		Cmds:          []string{"obiconvert", "obigrep", "obiannotate"},
 		MinNontrivial: 500,
